@@ -2,6 +2,7 @@
 Module for PickAPerm algorithm. More details in PickAPerm docstring class.
 """
 
+from math import isclose
 from typing import List, Dict
 from corankco.algorithms.rank_aggregation_algorithm import RankAggAlgorithm
 from corankco.dataset import Dataset
@@ -72,11 +73,13 @@ class PickAPerm(RankAggAlgorithm):
                 dist: float = kemeny_computation.get_kemeny_score(ranking, dataset)
             else:
                 dist: float = mapping_ranking_score[ranking_str]
-            if dist < dst_min:
+            # two scores that differ by the rounding errors of their computation only are the same score
+            same_score: bool = isclose(dist, dst_min, rel_tol=1e-13, abs_tol=0.)
+            if dist < dst_min and not same_score:
                 dst_min = dist
                 consensus.clear()
                 consensus.append(ranking)
-            elif dist == dst_min and not return_at_most_one_ranking:
+            elif same_score and not return_at_most_one_ranking:
                 consensus.append(ranking)
 
         return Consensus(consensus_rankings=consensus,
